@@ -9,10 +9,11 @@ ids = [json.loads(l)["id"] for l in open(os.path.join(VERIF, "properties.jsonl")
 hooks_file = os.path.join(VERIF, "hooks.json")
 hooks = json.load(open(hooks_file)) if os.path.exists(hooks_file) else {"source_commits": []}
 
+verified = set(open(os.path.join(VERIF, "tools", "verified.txt")).read().split())
 checks = []
 for pid in ids:
     p = props.PROPS.get(pid)
-    if not p or p.get("disabled"):
+    if not p or p.get("disabled") or pid not in verified:
         continue
     checks.append({
         "property_id": pid,
@@ -35,7 +36,7 @@ for pid in ids:
     })
 na = []
 for pid in ids:
-    if pid not in props.PROPS or props.PROPS[pid].get("disabled"):
+    if pid not in props.PROPS or props.PROPS[pid].get("disabled") or pid not in verified:
         na.append({"property_id": pid, "reason": props.NOT_APPLICABLE.get(pid, "check not built yet (planned in DESIGN.md section 4); not claimed")})
 
 man = {
